@@ -45,15 +45,15 @@ def shards(tier):
 
 
 class JsonProxy:
-    """stands in for the `json` name inside joserfc.jwt; records loads() and delegates"""
+    """stands in for the `json` name inside every joserfc module that has one; records loads() and delegates"""
 
-    def __init__(self, real, tracer):
-        self._real, self._tr = real, tracer
+    def __init__(self, real, tracer, where="joserfc.jwt"):
+        self._real, self._tr, self._where = real, tracer, where
 
     def loads(self, s, *a, **kw):
         ev = self._tr.events
         if ev is not None:
-            ev.append(("json.loads", "joserfc.jwt", bytes(s) if isinstance(s, (bytes, bytearray)) else s))
+            ev.append(("json.loads", self._where, bytes(s) if isinstance(s, (bytes, bytearray)) else s))
         return self._real.loads(s, *a, **kw)
 
     def __getattr__(self, n):
@@ -113,13 +113,19 @@ class Mon:
     def __init__(self, ctx):
         self.ctx = ctx
         self.tr = Tracer(_select, with_args=False).start()
-        import joserfc.jwt as jwtmod
-        self.jwtmod = jwtmod
-        self.real_json = jwtmod.json
-        jwtmod.json = JsonProxy(self.real_json, self.tr)
+        import sys
+        import json as real_json
+        import joserfc.jwt  # noqa: F401
+        self.patched = []
+        for name, mod in list(sys.modules.items()):
+            # wherever the payload ends up being parsed (joserfc.jwt today), the parse is seen
+            if name.startswith("joserfc") and mod is not None and getattr(mod, "json", None) is real_json:
+                mod.json = JsonProxy(real_json, self.tr, name)
+                self.patched.append((mod, real_json))
 
     def close(self):
-        self.jwtmod.json = self.real_json
+        for mod, real in self.patched:
+            mod.json = real
         self.tr.stop()
 
     def decode(self, token, key, **kw):
@@ -128,8 +134,9 @@ class Mon:
             o = call(j.jwt.decode, token, key, **kw)
         return o, list(ev)
 
-    def order_ok(self, ev, case, what):
-        """payload json.loads only after a verify returned True / a content decryption returned"""
+    def order_ok(self, ev, case, what, is_payload=None):
+        """payload json.loads only after a verify returned True / a content decryption returned.
+        A loads() event is a parse of the payload when it happens in joserfc.jwt or when is_payload(argument) says so."""
         ctx = self.ctx
         ctx.count("trace_orders_checked")
         passed = False
@@ -139,10 +146,32 @@ class Mon:
             if e[0] == "ret" and e[1].endswith("EncModel.decrypt"):
                 passed = True
             if e[0] == "json.loads":
+                if e[1] != "joserfc.jwt":
+                    try:
+                        if not (is_payload and is_payload(e[2])):
+                            continue
+                    except Exception:
+                        continue
                 ctx.count("payload_parse_events")
                 if not passed:
                     ctx.violation("trace:parse-before-integrity", f"jwt.decode parsed the payload before the {what} integrity check had passed", case)
                     return
+
+
+def scribble(obj, depth=0):
+    """modify a decoded object in place, at every level"""
+    if isinstance(obj, dict):
+        for v in list(obj.values()):
+            if depth < 6:
+                scribble(v, depth + 1)
+        for k in list(obj)[:1]:
+            obj[k] = "c09-scribble" if not isinstance(obj[k], (dict, list)) else obj[k]
+        obj["c09-scribble"] = True
+    elif isinstance(obj, list):
+        for v in obj:
+            if depth < 6:
+                scribble(v, depth + 1)
+        obj.append("c09-scribble")
 
 
 def transport(rng, idx):
@@ -225,7 +254,28 @@ def roundtrip(mon: Mon, ctx, rng, tp):
     if got != eh:
         key = "typ-not-overridable" if got.get("typ") != eh.get("typ") else "header-differs"
         ctx.violation(key, f"decoded header {tok.header!r}, expected {eh!r}", {**case, "token": token})
-    mon.order_ok(ev, {**case, "token": token}, tp["kind"])
+    def is_payload(arg):
+        v = json.loads(arg)
+        return isinstance(v, dict) and "alg" not in v and jeq(v, expect_json)
+    mon.order_ok(ev, {**case, "token": token}, tp["kind"], is_payload)
+    # what a decode returns belongs to the caller: whatever is done to it, a later decode of the same token is not affected
+    if rng.random() < 0.5 and isinstance(tok.claims, dict):
+        scribble(tok.claims)
+        scribble(tok.header)
+        d2, ev2 = mon.decode(token, dk, **kw)
+        ctx.count("decoded_again_after_scribbling")
+        if not d2.ok:
+            ctx.violation(f"second-decode-fails:{d2.key}", f"the same token decodes once and then fails after the first result was modified by the caller: {d2.exc!r}",
+                          {**case, "token": token})
+        else:
+            if not jeq(d2.value.claims, expect_json):
+                ctx.violation("claims-differ-on-second-decode", f"second decode of the same token returns claims {str(d2.value.claims)[:150]}, encoded were "
+                              f"{str(expect_json)[:150]} (the caller had modified the object returned by the first decode)", {**case, "token": token})
+            g2 = dict(d2.value.header)
+            if "c09-scribble" in g2 or any(isinstance(v, (list, dict)) and "c09-scribble" in v for v in g2.values()):
+                ctx.violation("header-differs-on-second-decode", f"second decode returns header {g2!r} carrying the caller's modification of the first result",
+                              {**case, "token": token})
+            mon.order_ok(ev2, {**case, "token": token}, tp["kind"], is_payload)
     if len(ctx.samples) < 3:
         ctx.sample({"header": header_before, "claims": expect_json, "transport": tp["kind"] + ":" + tp["alg"], "token": token[:300]})
 
@@ -259,7 +309,7 @@ def hostile(mon: Mon, ctx, rng, tp, name, payload, expect):
     ctx.cell("hostile", tp["kind"], name)
     ctx.nontrivial(("hostile", name, tp["kind"], tp["alg"], token))
     case = {"payload": payload, "payload_class": name, "transport": tp, "token": token}
-    mon.order_ok(ev, case, tp["kind"])
+    mon.order_ok(ev, case, tp["kind"], lambda arg: (arg if isinstance(arg, bytes) else str(arg).encode()) == payload)
     if expect == "open":
         ctx.open("payload-" + name)
         return
